@@ -38,6 +38,24 @@ CHECKS.update({
               "PrefixWeight / Weight of Grammars.tla over Sat(3)/Sat(2)/Bool (cyclic grammars, infinitely many "
               "completions, exact by finiteness of the semiring) and exact rationals (finite languages)."),
         ref="DESIGN.md section 6 (C03)", technique=TV),
+    "C04": dict(
+        text=("p_next of EarleyLM, rescaled EarleyLM and CKYLM on warm and cold objects, lm(x eos), and the unnormalised "
+              "next-token weights of the underlying parsers are judged by TLC against PrefixWeight/Weight/TreeSum of "
+              "Grammars.tla: p_next(ctx)[t] = PW(ctx.t)/PW(ctx), eos gets Weight(ctx)/PW(ctx), the distribution sums to one, "
+              "a non-viable context gives all zeros, lm(x eos) = Weight(x)/Z, ntw[t] = PW(ctx.t) = parser(ctx.t). Exact "
+              "rationals on grammars with finitely many derivations (values the code can only produce as floats are "
+              "recorded in 2^-20 fixed point and compared with the exact oracle value in two-limb integer arithmetic); "
+              "Sat(3) with arbitrary recursion for the unnormalised identity."),
+        ref="DESIGN.md section 6 (C04)", technique=TV),
+    "C05": dict(
+        text=("ParserCache.tla (the cache of memoised prefixes as a state machine; PrefixClosed, OnlyClearForgets) is "
+              "model-checked and its complete state graph (all histories over prefixes <= 2, both parser kinds) is walked "
+              "edge by edge on real Earley, rescaled Earley, IncrementalCKY, EarleyLM, rescaled EarleyLM, CKYLM and BoolCFGLM "
+              "objects; random longer histories and the purity of every query/transformation are recorded and validated by "
+              "TLC (TraceParserCache.tla). A violation needs an observable witness: an answer (or the answer a cached chart "
+              "will give) that differs from a fresh object's, a mutated grammar, or an exception."),
+        ref="DESIGN.md section 6 (C05)",
+        technique="TLA+ state machine (ParserCache.tla) model-checked; state graph replayed edge by edge into the code; trace validation of query histories"),
     "C06": dict(
         text=("Every transformation (trim, cotrim, binarize, separate_start, separate_terminals, nullaryremove with its "
               "options, unaryremove, unarycycleremove, cnf, renumber, rename, unfold) and random pipelines of 2-3 of them "
